@@ -66,8 +66,18 @@ class Ref:
         self.inv_sbox = [0] * 256
         for a, s in enumerate(self.sbox):
             self.inv_sbox[s] = a
+        self.mt = {k: [g(k, x) for x in range(256)] for k in (2, 3, 9, 11, 13, 14)}   # the reference's own products
+        self._exp = {}
 
     def expand(self, key):
+        key = bytes(key)
+        if key not in self._exp:
+            if len(self._exp) > 64:
+                self._exp.clear()
+            self._exp[key] = self._expand(key)
+        return self._exp[key]
+
+    def _expand(self, key):
         nk = len(key) // 4
         nr = nk + 6
         w = [list(key[4 * i:4 * i + 4]) for i in range(nk)]
@@ -84,7 +94,7 @@ class Ref:
 
     def enc_block(self, key, blk):
         rk, nr = self.expand(key)
-        g = self.gmul
+        g = lambda k, x: self.mt[k][x]
         s = [[blk[r + 4 * c] ^ rk[0][r + 4 * c] for c in range(4)] for r in range(4)]
         for rnd in range(1, nr + 1):
             s = [[self.sbox[s[r][c]] for c in range(4)] for r in range(4)]
@@ -97,7 +107,7 @@ class Ref:
 
     def dec_block(self, key, blk):
         rk, nr = self.expand(key)
-        g = self.gmul
+        g = lambda k, x: self.mt[k][x]
         s = [[blk[r + 4 * c] ^ rk[nr][r + 4 * c] for c in range(4)] for r in range(4)]
         for rnd in range(nr - 1, -1, -1):
             s = [[s[r][(c - r) % 4] for c in range(4)] for r in range(4)]
@@ -107,6 +117,16 @@ class Ref:
                 s = [[g(14, s[r][c]) ^ g(11, s[(r + 1) % 4][c]) ^ g(13, s[(r + 2) % 4][c]) ^ g(9, s[(r + 3) % 4][c])
                       for c in range(4)] for r in range(4)]
         return bytes(s[i % 4][i // 4] for i in range(16))
+
+    @staticmethod
+    def unpad(data, bs):
+        """PKCS#7 as specified: the last byte p (1..bs) and exactly the last p bytes, all equal to p, go."""
+        if not data:
+            return data
+        p = data[-1]
+        if p < 1 or p > bs or len(data) < p or any(x != p for x in data[-p:]):
+            return None
+        return data[:-p]
 
     def ecb(self, key, data, dec=False):
         f = self.dec_block if dec else self.enc_block
@@ -213,7 +233,7 @@ def run(ctx):
     ctx.rule = ("exhaustive: _xtime on 0..255(+masking cases), _gf_mul on all byte pairs (quick: all pairs in Python, "
                 "9x256+random pairs in Coq; thorough: all 65 536 in Coq), round functions on index-identifying, "
                 "single-bit (basis) and random states; random (history, key, iv, message) with key sizes 16/24/32, "
-                "message lengths 0..64 (aligned and not), wrong key/IV lengths, histories of up to 7 earlier keys "
+                "message lengths 0..64 (aligned and not) and long messages of 1..257 blocks around every power of two (64/65, 128/129: batching thresholds) against the reference, 65/66/129/130 blocks also in Coq; messages ending in their own pad value / all pad bytes for every length 0..48, structured malformed paddings; keys differing in one byte, IV all 0xFF/0; wrong key/IV lengths, histories of up to 7 earlier keys "
                 "(cache hits, evictions, bad keys); CryptAES wrapper for every message length 0..64 x key size; "
                 "non-trivial = the call reaches the cipher (not rejected up front)")
     ctx.trusted += [
@@ -412,6 +432,67 @@ def run(ctx):
             if rt != data or rt2 != data:
                 ctx.finding(f"roundtrip:keylen={len(k)}", "decrypt(encrypt(m)) != m", {"key": k, "iv": iv, "data": data})
 
+
+    # ---- long messages (batching thresholds), structural boundaries: implementation vs independent reference for
+    #      every block count; the Coq model on the counts around 64 and 128 (all of them in the thorough tier)
+    long_cases, long_info = [], []
+    counts = [1, 2, 3, 4, 7, 8, 9, 15, 16, 17, 31, 32, 33, 63, 64, 65, 66, 127, 128, 129, 130, 200, 255, 256, 257]
+    coq_counts = set(counts) if ctx.tier == "thorough" else {65, 66, 129, 130}
+    if ctx.tier == "thorough":
+        counts += [511, 512, 513]
+    for idx, nb in enumerate(counts):
+        n = (16, 24, 32)[idx % 3]
+        k = rkey(rng, n)
+        iv = rkey(rng, 16)
+        shape = idx % 4   # random / repeating block (ECB-CBC difference, chaining) / all 0xFF / counting
+        data = (rkey(rng, 16 * nb) if shape == 0 else rkey(rng, 16) * nb if shape == 1
+                else b"\xff" * (16 * nb) if shape == 2 else bytes((i * 7 + i // 251) & 0xFF for i in range(16 * nb)))
+        exp = {"ecb-enc": ref.ecb(k, data), "cbc-enc": ref.cbc_enc(k, iv, data)}
+        exp["ecb-dec"] = ref.ecb(k, data, True)
+        exp["cbc-dec"] = ref.cbc_dec(k, iv, data)
+        ct_cbc = exp["cbc-enc"]
+        calls = [("ecb-enc", m.aes_ecb_encrypt, (k, data), exp["ecb-enc"]), ("ecb-dec", m.aes_ecb_decrypt, (k, data), exp["ecb-dec"]),
+                 ("cbc-enc", m.aes_cbc_encrypt, (k, iv, data), exp["cbc-enc"]), ("cbc-dec", m.aes_cbc_decrypt, (k, iv, data), exp["cbc-dec"]),
+                 ("cbc-dec-of-enc", m.aes_cbc_decrypt, (k, iv, ct_cbc), data), ("ecb-dec-of-enc", m.aes_ecb_decrypt, (k, exp["ecb-enc"]), data)]
+        for nm, f, args, wantv in calls:
+            R.set_history([])
+            ok, r = R.call(f.__name__, f, *args)
+            ctx.case(("long", nm, nb, n), True, f"long:{nm}")
+            if not ok:
+                continue
+            if r != wantv:
+                firstbad = next((i // 16 for i in range(0, len(wantv), 16) if r is None or r[i:i + 16] != wantv[i:i + 16]), None)
+                ctx.finding(f"long-message:{nm}:first-wrong-block={firstbad}",
+                            f"{f.__name__} on {nb} blocks differs from the reference from block {firstbad} on (key {k.hex()})",
+                            {"fn": f.__name__, "key": k, "iv": iv, "blocks": nb, "data": args[-1], "got": r, "want": wantv,
+                             "first_wrong_block": firstbad})
+            if nb in coq_counts and nm in ("ecb-enc", "cbc-enc", "cbc-dec", "cbc-dec-of-enc", "ecb-dec"):
+                dec = "dec" in nm.split("-")[1]
+                if nm.startswith("ecb"):
+                    long_cases.append(f"CEcb {cbool(dec)} [] {cb(k)} {cb(args[-1])} {copt(r)}")
+                else:
+                    long_cases.append(f"CCbc {cbool(dec)} [] {cb(k)} {cb(iv)} {cb(args[-1])} {copt(r)}")
+                long_info.append(("long-" + nm, nb, k, iv))
+    # IV / key / data extremes; keys that differ only in the last byte (cache must not confuse them)
+    for n in (16, 24, 32):
+        base = rkey(rng, n)
+        twins = [base, base[:-1] + bytes([base[-1] ^ 1]), base[:-1] + bytes([base[-1] ^ 0x80]), bytes([base[0] ^ 1]) + base[1:]]
+        for iv in (b"\xff" * 16, bytes(16), rkey(rng, 16)):
+            for data in (b"\xff" * 32, bytes(48), rkey(rng, 16)):
+                for k in twins:
+                    hist = [x for x in twins if x != k] + [k] + [x for x in twins if x != k][:rng.randrange(0, 3)]
+                    for dec, f, rf in ((False, m.aes_cbc_encrypt, ref.cbc_enc), (True, m.aes_cbc_decrypt, ref.cbc_dec)):
+                        R.set_history(hist)
+                        ok, r = R.call(f.__name__, f, k, iv, data)
+                        if ok:
+                            if ctx.tier == "thorough" or rng.random() < 0.25:
+                                R.add(f"CCbc {cbool(dec)} {clb(hist)} {cb(k)} {cb(iv)} {cb(data)} {copt(r)}", ("cbc", dec, hist, k, iv, data), True, "cbc(twin-keys,iv-extremes)")
+                            else:
+                                ctx.case(("cbc-twin", dec, k, iv, data), True, "cbc(twin-keys,iv-extremes;py)")
+                            if r != rf(k, iv, data):
+                                ctx.finding(f"{f.__name__}:twin-keys:keylen={n}", f"{f.__name__} wrong after a history of keys differing in one "
+                                            f"byte (key {k.hex()}, iv {iv.hex()})", {"key": k, "iv": iv, "data": data, "history": hist, "got": r})
+
     # ---- cache histories
     for t in range(ctx.n(40, 400)):
         hist = history() + history()
@@ -450,6 +531,50 @@ def run(ctx):
         if ok:
             R.add(f"CUnpad {cb(d)} 16 {copt(u)}", ("unpad", d, 16), u is not None, "pkcs7_unpad(malformed)")
 
+
+    # messages that END in the pad value for their own length (1-3 bytes, and entirely), for every length 0..48:
+    # a stripper that removes "all trailing pad bytes" instead of exactly `padding` bytes truncates these
+    def padlike_messages(ln, bs=16):
+        pv = bs - ln % bs
+        out = []
+        for kk in (1, 2, 3):
+            if kk <= ln:
+                out.append(rkey(rng, ln - kk) + bytes([pv]) * kk)
+        if ln:
+            out.append(bytes([pv]) * ln)
+            out.append(rkey(rng, ln - 1) + bytes([(pv % bs) + 1]))      # ends in a *different* small value
+        return out
+    for ln in range(0, 49):
+        for d in padlike_messages(ln):
+            p = m._pkcs7_pad(d, 16)
+            ok, u = R.call("_pkcs7_unpad", m._pkcs7_unpad, p, 16)
+            R.add(f"CPad {cb(d)} 16 {cb(p)}", ("pad", d, 16), True, "pkcs7_pad(padlike)")
+            if ok:
+                R.add(f"CUnpad {cb(p)} 16 {copt(u)}", ("unpad", p, 16), True, "pkcs7_unpad(padlike)")
+                if u != d or p != d + bytes([16 - ln % 16]) * (16 - ln % 16):
+                    ctx.finding(f"pkcs7-padlike-message:len%16={ln % 16}", f"unpad(pad(m)) != m for a message ending in its own pad value "
+                                f"(len {ln}, m={d.hex()}): got {None if u is None else u.hex()}", {"message": d, "padded": p, "unpadded": u})
+    # malformed paddings: last byte 0, > block size, run shorter than announced, run interrupted, longer run than announced
+    malformed = []
+    for ln in (1, 2, 15, 16, 17, 32, 33, 48):
+        body = rkey(rng, ln)
+        malformed += [body[:-1] + b"\x00", body[:-1] + b"\x11", body[:-1] + b"\x20", body[:-1] + b"\xff", body[:-1] + bytes([ln + 1 if ln < 16 else 16])]
+        for pv in (2, 3, 5, 16):
+            if ln >= pv:
+                good = body[:ln - pv] + bytes([pv]) * pv
+                malformed += [good, good[:ln - pv] + bytes([pv ^ 1]) + good[ln - pv + 1:],                  # first pad byte wrong
+                              good[:ln - 2] + bytes([pv ^ 2]) + good[ln - 1:] if pv > 1 else good,        # interrupted run
+                              (body[:ln - pv - 2] + bytes([pv]) * (pv + 2)) if ln >= pv + 2 else good]      # longer run: strip exactly pv
+    for d in malformed:
+        for bs in (16, 8):
+            ok, u = R.call("_pkcs7_unpad", m._pkcs7_unpad, d, bs)
+            if ok:
+                R.add(f"CUnpad {cb(d)} {bs} {copt(u)}", ("unpad", d, bs), u is not None, "pkcs7_unpad(malformed-structured)")
+                if u != ref.unpad(d, bs):
+                    ctx.finding(f"pkcs7-unpad:bs={bs}:last-byte={d[-1]}", f"_pkcs7_unpad({d.hex()}, {bs}) = {None if u is None else u.hex()}, "
+                                f"PKCS#7 says {None if ref.unpad(d, bs) is None else ref.unpad(d, bs).hex()} (None = ValueError)",
+                                {"data": d, "block_size": bs, "got": u, "want": ref.unpad(d, bs)})
+
     # ---- CryptAES wrapper as patched into pypdf
     patched = False
     try:
@@ -480,6 +605,48 @@ def run(ctx):
                     if ct is not None and ok2:
                         R.add(f"CStreamDec {cb(k)} {cb(ct)} {copt(back)}", ("stream-dec", k, ct), True, "CryptAES.decrypt")
             m.secrets.token_bytes = real_token
+            # messages ending in their own pad value / long messages / extreme IVs through the wrapper
+            wl = []
+            for ln in range(0, 49):
+                wl += [(rkey(rng, (16, 24, 32)[ln % 3]), rkey(rng, 16), d) for d in padlike_messages(ln)]
+            for nb in (64, 65, 128, 129) if ctx.tier == "quick" else (63, 64, 65, 66, 127, 128, 129, 130, 200, 257):
+                for tail in (0, 15):
+                    wl.append((rkey(rng, (16, 24, 32)[nb % 3]), rkey(rng, 16), rkey(rng, 16 * nb - tail)))
+            wl += [(rkey(rng, 16), b"\xff" * 16, b"\x10" * 16), (rkey(rng, 32), bytes(16), b"\x10" * 32), (rkey(rng, 24), b"\xff" * 16, b"")]
+            for k, iv, msg in wl:
+                m.secrets.token_bytes = lambda c, _iv=iv: _iv if c == 16 else real_token(c)
+                R.set_history([])
+                ok, ct = R.call("CryptAES.encrypt", CryptAES(k).encrypt, msg)
+                m.secrets.token_bytes = real_token
+                if not ok:
+                    continue
+                ln = len(msg)
+                exp = iv + ref.cbc_enc(k, iv, msg + bytes([16 - ln % 16]) * (16 - ln % 16))
+                R.set_history([])
+                ok2, back = R.call("CryptAES.decrypt", CryptAES(k).decrypt, ct) if ct is not None else (True, None)
+                small = ln <= 16 * 66 or ctx.tier == "thorough"
+                if small:
+                    R.add(f"CStreamEnc {cb(k)} {cb(iv)} {cb(msg)} {copt(ct)}", ("stream-enc", k, iv, msg), True, "CryptAES.encrypt(padlike/long)")
+                    if ok2 and ct is not None:
+                        R.add(f"CStreamDec {cb(k)} {cb(ct)} {copt(back)}", ("stream-dec", k, ct), True, "CryptAES.decrypt(padlike/long)")
+                else:
+                    ctx.case(("stream-long", k, iv, ln), True, "CryptAES(long;py)")
+                if ct != exp or back != msg:
+                    what = ("decrypt(encrypt(m)) returned a %d-byte message for a %d-byte m" % (len(back), ln)) if back is not None and ct == exp else "encrypt != IV||CBC(pad m) or decrypt failed"
+                    ctx.finding(f"stream-padlike-or-long:len%16={ln % 16}:blocks={ln // 16}", f"CryptAES wrapper: {what} (m ends in {msg[-3:].hex()})",
+                                {"key": k, "iv": iv, "message": msg, "ciphertext": ct, "decrypted": back})
+            # valid CBC layer over a plaintext with malformed padding: ValueError exactly where PKCS#7 says
+            for d in malformed:
+                if len(d) % 16 == 0:
+                    k, iv = rkey(rng, 16), rkey(rng, 16)
+                    ct = iv + ref.cbc_enc(k, iv, d)
+                    R.set_history([])
+                    ok, back = R.call("CryptAES.decrypt", CryptAES(k).decrypt, ct)
+                    if ok:
+                        R.add(f"CStreamDec {cb(k)} {cb(ct)} {copt(back)}", ("stream-dec", k, ct), back is not None, "CryptAES.decrypt(malformed-padding)")
+                        if back != ref.unpad(d, 16):
+                            ctx.finding(f"stream-unpad:last-byte={d[-1]}", f"CryptAES.decrypt of a plaintext {d.hex()} returned "
+                                        f"{None if back is None else back.hex()}, PKCS#7 says {ref.unpad(d, 16)}", {"key": k, "ciphertext": ct, "plaintext": d, "got": back})
             # freshness is not modelled, but the wrapper must at least ask for a new IV each call
             c1, c2 = CryptAES(keys[0]).encrypt(b"x"), CryptAES(keys[0]).encrypt(b"x")
             ctx.case(("iv-fresh",), True, "iv-fresh")
@@ -506,8 +673,17 @@ def run(ctx):
     # ---- correspondence: the model on the same cases
     pre = "From Coq Require Import NArith List.\nFrom S2T Require Import C20.Spec C20.Model C20.Corr Gen.C20Tables.\nImport ListNotations.\n"
     okc, failing, log = coq_eval_shards(ctx, "corr", pre, "(corr_case T)", R.cases, shard=ctx.n(350, 500), ty="ccase", timeout=1200)
-    ctx.traces += len(R.cases)
-    ctx.disagreements += len(failing)
+    okl, failing_l, logl = coq_eval_shards(ctx, "corrlong", pre, "(corr_case T)", long_cases, shard=3, ty="ccase", timeout=1200)
+    ctx.obligation("correspondence(long messages: 65/66/129/130 blocks; thorough: 1..513):model==implementation",
+                   okl and not failing_l, (f"{len(failing_l)} disagreements; first: {long_info[failing_l[0]][:2] if failing_l else ''!r} " + logl)[:1500])
+    for i in failing_l[:3]:
+        ctx.finding(f"model-disagrees:{long_info[i][0]}:blocks={long_info[i][1]}", f"implementation differs from the proved model on a "
+                    f"{long_info[i][1]}-block {long_info[i][0]} case", {"case": list(long_info[i]), "coq_term": long_cases[i][:6000]})
+    for inf in long_info:
+        ctx.case(inf, True, "coq:" + inf[0])
+    ctx.traces += len(R.cases) + len(long_cases)
+    ctx.disagreements += len(failing) + len(failing_l)
+    ctx.extra["corr_long_cases"] = len(long_cases)
     ctx.extra["corr_cases"] = len(R.cases)
     ctx.obligation("correspondence:model==implementation (byte-level exhaustive + random histories/keys/ivs/messages)",
                    okc and not failing, (f"{len(failing)} disagreements; first: {R.info[failing[0]] if failing else ''!r} " + log)[:1500])
